@@ -205,9 +205,9 @@ def n_blocks(coll):
 
 
 def zero_chunk_mix(colls):
-    """Operands with different chunkings of which at least one has a zero-width block next to other blocks."""
+    """Several dask operands of which at least one has a zero-width block next to other blocks."""
     try:
-        return any(has_zero_chunk(c) for c in colls) and len({tuple(c.chunks) for c in colls}) > 1
+        return len(colls) > 1 and any(has_zero_chunk(c) for c in colls)
     except Exception:
         return False
 
@@ -1565,10 +1565,11 @@ def gen_ufunc(D_, it):
     step = {"op": "ufunc_out", "tgt": i, "fn": fn, "api": D_.choice(["np", "da"]), "ins": ins, "where": where, "joint": D_.chance(1, 3)}
     if form:
         step["form"] = form
-    if form is None:
+    if True:
         # NumPy casts the result into out's dtype
         with np.errstate(all="ignore"):
             res = getattr(np, fn)(*[it._ufunc_input(s)[0] for s in ins])
+        it.tags = set()
         if res.dtype != t.mirror.dtype:
             if _steer(KF_OUT_DTYPE):
                 it.excluded.append(KF_OUT_DTYPE)
@@ -1972,7 +1973,7 @@ REGION_DOC = {
     KF_LEADING_ONE: "setitem with a value that has more dimensions than the selection (extra leading unit dimensions)",
     KF_WHERE_0D: "ufunc(..., out=v, where=mask) on a 0-d v",
     KF_MASKED_0D: "x[...] = np.ma.masked on a 0-d x",
-    KF_ZERO_CHUNK_MASK: "compute_chunk_sizes of a collection built by combining (dask-mask assignment, where=, v+w) operands with different chunkings of which one has a zero-width block",
+    KF_ZERO_CHUNK_MASK: "compute_chunk_sizes of a collection built by combining (dask-mask assignment, v+w) operands of which one has a zero-width block next to other blocks",
     KF_NEG_ZERO_CHUNK: "negative-step slice of a collection whose chunks contain a zero-width block next to other blocks (typical after compute_chunk_sizes)",
     KF_OUT_DTYPE: "ufunc(..., out=v) whose natural result dtype differs from v's dtype",
     KF_SLICE_UOUT: "a basic index / boolean mask (or compute_chunk_sizes, which slices internally) applied to a collection whose expression contains an ufunc out= result",
